@@ -1793,8 +1793,10 @@ impl FunctionDef {
                 // Build local bindings for this call (O(1) - no clone of parent environment!)
                 let mut local_bindings = HashMap::new();
 
-                // Add self-reference if named
-                if let Some(fn_name) = name {
+                // Add self-reference if named (a captured value of that name takes precedence)
+                if let Some(fn_name) = name
+                    && !scope.contains_key(fn_name)
+                {
                     local_bindings.insert(fn_name.clone(), this_value);
                 }
 
